@@ -589,7 +589,9 @@ func c11nils(c *Ctx) {
 		map[[2]unsafe.Pointer]bool{{nil, unsafe.Pointer(&keyInts[0])}: true, {nil, unsafe.Pointer(&keyInts[1])}: false},
 		// read-only reflect.Values (taken from unexported fields) holding wrappers, redactables and nil
 		reflect.ValueOf(tSUnexp{1, "s", redact.Safe("w")}).Field(2), reflect.ValueOf(tSUnexp{1, "s", redact.Unsafe(3)}).Field(2).Elem(), reflect.ValueOf(tSUnexp{1, "s", redact.Safe(nil)}).Field(2).Elem(),
-		reflect.ValueOf(tSUnexp{1, "s", redact.RedactableString("r")}).Field(2).Elem(), reflect.ValueOf(tSUnexp{1, "s", nil}).Field(2), reflect.ValueOf(tSUnexp{1, "s", tErr{"e"}}).Field(2)}
+		reflect.ValueOf(tSUnexp{1, "s", redact.RedactableString("r")}).Field(2).Elem(), reflect.ValueOf(tSUnexp{1, "s", nil}).Field(2), reflect.ValueOf(tSUnexp{1, "s", tErr{"e"}}).Field(2),
+		// nil values of non-pointer types whose methods panic on them: reported as PANIC, not as <nil>
+		tPathStringer(nil), tPathStringer{}, tMapErr(nil), tFuncStringer(nil), []interface{}{tPathStringer(nil), tMapErr(nil)}}
 	var jobs [][2]int
 	for i := range ops {
 		for v := range allVerbs {
@@ -610,6 +612,10 @@ func c11nils(c *Ctx) {
 				}
 				if !o.panicked {
 					checkOut(w, o.out, routeNames[route]+" "+f, cs)
+					// a method panic that fmt reports in place is reported in place here too (and vice versa)
+					if !fo.panicked && route != routeErrorf && strings.Contains(fo.out, "(PANIC=") != strings.Contains(o.out, "(PANIC=") {
+						w.Violate("C11 panic-report", routeNames[route]+"("+q(f)+", "+sprintType(op)+") = "+q(o.out)+" but fmt prints "+q(fo.out)+": a method panic is reported in place exactly where fmt reports one", cs())
+					}
 				}
 			}
 		}
@@ -720,6 +726,6 @@ func runC11(c *Ctx) {
 	c11panics(c)
 	c11doublePanics(c)
 	c11withoutMarkers(c)
-	c.res.Bound = "rune edges: all 2048 surrogates + 18 boundary values; all 256 bytes; 5 buffer states x 4 implementations; 44 JoinTo operand types x 4 delimiters; every prefix of 46 hostile formats x 11 operand lists x 6 routes; 39 nil-ish and reflection-hostile operands x 58 verbs x 4 flag forms x 6 routes"
+	c.res.Bound = "rune edges: all 2048 surrogates + 18 boundary values; all 256 bytes; 5 buffer states x 4 implementations; 44 JoinTo operand types x 4 delimiters; every prefix of 46 hostile formats x 11 operand lists x 6 routes; 44 nil-ish and reflection-hostile operands x 58 verbs x 4 flag forms x 6 routes"
 	c.res.Assumptions = []string{"outside the claim, per the statement: Grow with a negative count, memory exhaustion; nil destinations/callbacks are programmer errors, not values to print", "a panic raised while printing a panic payload propagates, as in fmt (checked against fmt in C04)"}
 }
